@@ -347,6 +347,7 @@ func (e *Engine) verify(key string, c *Contract) *Unit {
 			}
 		}
 	}
+	frontier0 := st.frontier
 	fr := &frame{sig: u.sig, ftype: fd.Type}
 	if fd.Type.Results != nil {
 		for _, f := range fd.Type.Results.List {
@@ -397,6 +398,22 @@ func (e *Engine) verify(key string, c *Contract) *Unit {
 		// lock held at entry: nothing to do, checkGuarded consults the flag
 	}
 	u.cover(st, "entry", fd.Pos())
+	// frame: what the modifies clauses allow to change (resolved in the entry state)
+	allowed := map[string][]modTarget{}
+	allowAll := false
+	for _, m := range c.Modifies {
+		ts, err := u.modTargets(st, env, m)
+		if err != nil {
+			u.reject("contract error: %v", err)
+			return u
+		}
+		for _, t := range ts {
+			if t.heap == "*" {
+				allowAll = true
+			}
+			allowed[t.heap] = append(allowed[t.heap], t)
+		}
+	}
 	u.entry = st.fork()
 	st.old = u.entry
 	frames[u] = nil
@@ -426,6 +443,29 @@ func (e *Engine) verify(key string, c *Contract) *Unit {
 			res = r.vals[0]
 		}
 		u.bindResults(penv, c, u.sig, res)
+		// ghost definitions: the function's modifies clause names the ghost locations; they take their defined values here
+		if len(c.GhostEns) > 0 {
+			genv := &specEnv{u: u, st: r.st, old: r.st.old, vars: penv.vars, pkg: p.Types, where: c.Where}
+			for _, m := range c.Modifies {
+				if ce, ok := m.Expr.(*ast.CallExpr); ok {
+					if id, ok := ce.Fun.(*ast.Ident); ok && e.cs.Ghosts[id.Name] != nil && strings.HasPrefix(id.Name, "g_") {
+						if err := u.havocTarget(r.st, genv, m); err != nil {
+							u.reject("contract error: %v", err)
+						}
+					}
+				}
+			}
+			for _, ge := range c.GhostEns {
+				t, err := u.specBool(penv, ge)
+				if err != nil {
+					u.reject("contract error: %v", err)
+					continue
+				}
+				r.st.assume(t)
+			}
+			u.note("assumptions", "ghost definitions (ghost_ensures, assumed not checked) of "+key)
+		}
+		u.cover(r.st, "ret", fd.Pos()) // aggregated: at least one return path must be reachable
 		for i, en := range c.Ensures {
 			t, err := u.specBool(penv, en)
 			if err != nil {
@@ -444,6 +484,49 @@ func (e *Engine) verify(key string, c *Contract) *Unit {
 			cs := r.st.fork()
 			cs.assume(t)
 			u.cover(cs, fmt.Sprintf("user%d@ret%d", i+1, ri+1), fd.Pos())
+		}
+		// frame obligations: every heap that differs from the entry state must be covered by modifies
+		if !allowAll && c.Flags["noframe"] == "" {
+			for _, hn := range sortedKeys(r.st.heap) {
+				cur := r.st.heap[hn]
+				sort := u.heapSort[hn]
+				ent, ok := u.entry.heap[hn]
+				if !ok {
+					ent = smtName(hn) + "!0"
+					u.decls.declConst(ent, sort)
+				}
+				if cur == ent || !strings.HasPrefix(sort, "(Array Int ") {
+					continue
+				}
+				if strings.HasPrefix(hn, "P$") || strings.HasPrefix(hn, "BX$") {
+					continue // boxed locals / interface boxes are private to the function
+				}
+				whole := false
+				var excl []Term
+				var wins []modTarget
+				for _, t := range allowed[hn] {
+					if t.idx == "" {
+						whole = true
+					} else if t.win != nil {
+						wins = append(wins, t)
+					} else {
+						excl = append(excl, tNot(tEq("r!qf", t.idx)))
+					}
+				}
+				if whole {
+					continue
+				}
+				for _, w := range wins {
+					excl = append(excl, tNot(tEq("r!qf", w.idx)))
+				}
+				goal := fmt.Sprintf("(forall ((r!qf Int)) (=> %s (= (select %s r!qf) (select %s r!qf))))", tAnd(append([]Term{isOld("r!qf", frontier0)}, excl...)...), cur, ent)
+				u.oblige(r.st, "frame", hn, goal, fd.Pos())
+				u.obls[len(u.obls)-1].Where = fmt.Sprintf("%s (heap %s changed; return path %d: %s)", c.Where, hn, ri+1, strings.Join(r.st.trace, ","))
+				for _, w := range wins {
+					g2 := fmt.Sprintf("(forall ((i!qf Int)) (=> (or (< i!qf %s) (>= i!qf (+ %s %s))) (= (select (select %s %s) i!qf) (select (select %s %s) i!qf))))", w.win.Off, w.win.Off, w.win.Len, cur, w.idx, ent, w.idx)
+					u.oblige(r.st, "frame", hn+"-window", g2, fd.Pos())
+				}
+			}
 		}
 		for k := range r.st.held {
 			if !strings.HasSuffix(k, "#r") {
